@@ -17,6 +17,7 @@ COQ_WARN = '-notation-overridden,-deprecated-hint-without-locality,-deprecated-i
 MODELS = {
     'scan':   ('ExtScan.v',   'scan_ext',   'scanner_driver.ml'),
     'parse':  ('ExtParse.v',  'parse_ext',  'parser_driver.ml'),
+    'parsel': ('ExtParseL.v', 'parsel_ext', 'parsel_driver.ml'),
     'reader': ('ExtReader.v', 'reader_ext', 'reader_driver.ml'),
     'load':   ('ExtLoad.v',   'load_ext',   'construct_driver.ml'),
     'dump':   ('ExtDump.v',   'dump_ext',   'represent_driver.ml'),
